@@ -161,7 +161,8 @@ class Amuset(probe.Contract):
         if condW > 1e5:
             c.skip('tgedmd_eigenproblem_ill_conditioned')
             return
-        sc = max(float(np.max(np.abs(wv))) if wv.size else 0.0, 1e-12)
+        # rounding noise of the eigenvalues scales with ||M|| (times the conditioning of the eigenvectors), not with the largest |eigenvalue|
+        sc = max(float(np.max(np.abs(wv))) if wv.size else 0.0, float(np.linalg.norm(M, 2)) if M.size else 0.0, 1e-12)
         lam = np.asarray(lam).reshape(-1)
         k = len(lam)
         tags = ['reversible' if rev else 'nonreversible', 'reweighted' if w is not None else 'unweighted', 'square_sigma' if sigma.shape[0] == sigma.shape[1] else 'nonsquare_sigma',
@@ -169,6 +170,10 @@ class Amuset(probe.Contract):
         srt = wv[np.argsort(-wv)]
         want = srt[:k] if np.isfinite(v['num_eigvals']) else srt
         tol = 1e-5 * sc * max(1.0, condW) * max(1.0, float(s[0] / s[-1]) * 1e-2)
+        if not rev:
+            # accuracy of the oracle itself: the Hessian of the product is a central difference (h = 1e-4) of complex-step gradients,
+            # good to ~1e-8 in absolute terms; generator values that are small only through cancellation inherit that absolute error
+            tol += 1e-6 * float(np.max(np.abs(np.einsum('ikl,jkl->ijl', sigma, sigma)))) * max(1.0, condW) * float(s[0] / s[-1])
         if np.isfinite(v['num_eigvals']) and k < len(srt):
             # the returned ones must be the k largest: compare as a multiset with the k leading reference values
             ok, worst = match_multiset(lam, want, tol)
